@@ -33,10 +33,19 @@ MANIFEST = {
             "credentials supplied WITH it are the current password of an enabled account (also while that user is logged in, after "
             "disable, after a password change; a disabled account stays refused until enable_user); closed forms over any nesting depth "
             "for commands, for new sessions and for which session's clock moved; in reachable states a session id has one client connection "
-            "and after a client logoff no node but the target holds it; the disconnect recursion never exhausts its fuel. Tie: constants, "
+            "and after a client logoff no node but the target holds it; the disconnect recursion never exhausts its fuel; connection OBJECTS "
+            "somebody kept (Python API: what Terminal.login returns — the second connection to a target, which no request can reach, and "
+            "local connections): execute on a kept object runs its command only while the object's id is a live session of its target "
+            "(remote) / the node's current local session (local, repaired code: finding F-C16-h), the request send_remote_command IS that "
+            "operation on the first connection, after disconnect() the object is dead whether or not the message arrived, an ended id "
+            "stays dead over sequences that contain handle operations, the reachable-state invariant survives handle operations, a local "
+            "session id never returns; a client logoff that reaches a target whose session manager is down removes the target's "
+            "connection and leaves its session list as it was (request level) (is_active of a remote client "
+            "object is modelled as 'still a key of the dictionary', of a local object as an input). Tie: constants, "
             "comparison operators, guard shapes, the time-out decisions per session kind, every write to last_active_step and every "
             "account-editing statement / caller / request in the package regenerated from the source (Gen/Session.lean, obligations "
-            "C16_gen_*), the requests really registered on a built node, + differential rig R-sess (2-3 real Computers on a Switch or "
+            "C16_gen_*), the guard clauses of the two connection-object execute methods TRANSLATED to Boolean functions and proved equal to the model's tests, "
+            "the requests really registered on a built node, + differential rig R-sess (2-3 real Computers on a Switch or "
             "behind one Router or two Routers in a chain whose ACLs block single directions, which are powered off / on and whose ARP "
             "caches are emptied mid-session) comparing every answer and the whole session state after every "
             "operation, plus the property's own oracle on the implementation.",
@@ -53,7 +62,7 @@ MANIFEST = {
 }
 MODULES = ["PrimaiteModel.Props.C16", "PrimaiteModel.Props.C16Conn", "PrimaiteModel.Props.C16Transport",
            "PrimaiteModel.Props.C16Timeout", "PrimaiteModel.Props.C16Admin", "PrimaiteModel.Props.C16Local",
-           "PrimaiteModel.Props.C16Chain", "PrimaiteModel.Props.C16Ends"]
+           "PrimaiteModel.Props.C16Chain", "PrimaiteModel.Props.C16Ends", "PrimaiteModel.Props.C16Handle", "PrimaiteModel.Props.C16Logoff"]
 EXE = "drv_c16"
 
 
@@ -122,6 +131,18 @@ def _runtime_inventory(ctx: Ctx):
     stubs = [im._req(0, ["logon"]), im._req(0, ["logoff"])]
     ctx.oblige("inventory:node logon/logoff are stubs (answer failure, change nothing)", "correspondence",
                stubs == ["failure", "failure"] and rig.render("x", im.snap()) == before, f"answers {stubs}")
+    # the agent actions build exactly the requests the rig sends for the model's operations (the rig also sends the action-built
+    # request itself in the families `viaaction` and in every second random trace)
+    ima = rig.Impl({"n": 2, "su": 1, "sd": 1, "rd": 1, "max": 2, "lto": 2, "rto": 3, "via": "action"})
+    for smp in rig.ACTION_SAMPLES:
+        node = rig.exec_node(smp)
+        try:
+            built = ima.action_request(node, smp)
+        except Exception as e:  # noqa: BLE001
+            built = f"{type(e).__name__}: {e}"
+        want = ["network", "node", f"n{node}"] + ima.cmd_request(node, smp)
+        ctx.oblige(f"action:{rig.ACTION_OF[smp['op']]} builds the request of operation {smp['op']}", "correspondence", built == want,
+                   f"action builds {built!r}; the model's operation is {want!r}")
     editors = sorted(m for m in dir(type(c.user_manager)) if "user" in m and not m.startswith("_")
                      and callable(getattr(type(c.user_manager), m, None)))
     ctx.oblige("inventory:public account methods of UserManager", "correspondence",
@@ -243,25 +264,50 @@ def run(ctx: Ctx):
     cfgs = dict(base_cfg, topo="routed", su=0, sd=0)
     for k, c in enumerate(rig.exhaustive_cases(cfgs, [dict(rig.self_alphabet()[0])], 3, rig.self_alphabet())):
         cases.append((f"exhself:{k}", c))
+    # kept connection objects (what Terminal.login returns): the second connection to a target and a local connection, used and
+    # logged off across every way their sessions end (time-out, password change on either node, logoff, logout, dead path)
+    cfgh = dict(base_cfg, topo="routed", max=3)
+    for k, c in enumerate(rig.exhaustive_cases(cfgh, rig.HANDLE_PREFIX, 3, rig.handle_alphabet())):
+        cases.append((f"exhhandle:{k}", c))
+    # ... and from the two states in which a logoff did not reach the target (dead path; target's session manager stopped): the
+    # target still lists the session, the kept object must be dead
+    lost = [[{"op": "block", "x": 0, "y": 1, "on": True}, {"op": "hdisc", "k": 0}, {"op": "block", "x": 0, "y": 1, "on": False}],
+            [{"op": "svc", "y": 1, "s": "user-session-manager", "v": "stop"}, {"op": "hdisc", "k": 0}]]
+    for pi, extra in enumerate(lost):
+        for k, c in enumerate(rig.exhaustive_cases(cfgh, rig.HANDLE_PREFIX + extra, 2, rig.handle_alphabet())):
+            cases.append((f"exhhandle-lost:{pi}:{k}", c))
+    # the same operations sent as agent ACTIONS (the request is built by the action class): session core, account editors, local commands
+    cfga = dict(base_cfg, via="action")
+    for k, c in enumerate(rig.exhaustive_cases(cfga, [login], 2, core)):
+        cases.append((f"viaaction:core:{k}", c))
+    for k, c in enumerate(rig.exhaustive_cases(cfga, rig.ADMIN_PREFIX, 2, rig.admin_alphabet())):
+        cases.append((f"viaaction:admin:{k}", c))
+    for k, c in enumerate(rig.exhaustive_cases(cfga, rig.LOCAL_PREFIX, 2, rig.local_alphabet())):
+        cases.append((f"viaaction:local:{k}", c))
     # the local command path: every sequence of three operations of the local alphabet (quick: a seeded sample of the largest families)
     fam_rng = ctx.rng.fork("families")
     local_all = list(rig.exhaustive_cases(base_cfg, rig.LOCAL_PREFIX, 3, rig.local_alphabet()))
     for k, c in _sample(fam_rng, local_all, len(local_all)):
         cases.append((f"exhlocal:{k}", c))
-    if ctx.thorough:   # depth 4: a seeded sample of 6 000 out of 14 641 sequences for each of the two newest families
-        for k, c in _sample(fam_rng, list(rig.exhaustive_cases(base_cfg, rig.LOCAL_PREFIX, 4, rig.local_alphabet())), 6000):
+    if ctx.thorough:   # depth 4: a seeded sample of 4 000 out of 14 641 sequences for each of the two newest families
+        for k, c in _sample(fam_rng, list(rig.exhaustive_cases(base_cfg, rig.LOCAL_PREFIX, 4, rig.local_alphabet())), 4000):
             cases.append((f"exhlocal4:{k}", c))
-        for k, c in _sample(fam_rng, list(rig.exhaustive_cases(cfgm, [login], 4, rig.medium_alphabet())), 6000):
+        for k, c in _sample(fam_rng, list(rig.exhaustive_cases(cfgm, [login], 4, rig.medium_alphabet())), 4000):
             cases.append((f"exhmedium4:{k}", c))
     rng = ctx.rng.fork("sess")
-    for k in range(ctx.scale(500, 6000)):
-        cases.append((f"gen:{k}", rig.gen_case(rng, max_ops=ctx.scale(30, 60))))
+    for k in range(ctx.scale(500, 5000)):
+        gc_case = rig.gen_case(rng, max_ops=ctx.scale(30, 60))
+        if k % 2 == 1:   # every second random trace sends its top-level operations as agent actions
+            gc_case = dict(gc_case, cfg=dict(gc_case["cfg"], via="action"))
+        if k % 3 == 0:   # every third random trace keeps connection objects and uses / logs them off later (own random stream)
+            gc_case = dict(gc_case, ops=rig.with_handles(ctx.rng.fork(f"handles:{k}"), gc_case["cfg"], gc_case["ops"]))
+        cases.append((f"gen:{k}", gc_case))
 
-    # quick tier: of every bounded-exhaustive family with more than 800 sequences a seeded sample of 800 is run (another sample for
+    # quick tier: of every bounded-exhaustive family with more than 550 sequences a seeded sample of 550 is run (another sample for
     # every VERIF_SEED; the thorough tier runs all of them): keeps the tier under its time limit on the loaded machine
     if not ctx.thorough:
-        cases = _thin(ctx.rng.fork("thin"), cases, 800)
-        ctx.notes.append("quick tier: families exhadmin / exhroute / exhmedium / exhends / exhlocal are seeded samples of 800 sequences each")
+        cases = _thin(ctx.rng.fork("thin"), cases, 550)
+        ctx.notes.append("quick tier: families exhadmin / exhroute / exhmedium / exhends / exhlocal / exhhandle are seeded samples of 550 sequences each")
 
     # implementation side, then ONE driver run for all cases
     impl_all, lines_all, bounds, aux = [], [], [], []
